@@ -414,7 +414,7 @@ func classifyWs(c WsCase) (bool, []string) {
 func TestRtspWebsocket(t *testing.T) {
 	pbt.Run(t, pbt.Spec[WsCase]{
 		ID: "C13", Name: "rtsp-websocket", Gen: genWsCase(false), Run: runWs, Classify: classifyWs, Isolate: true,
-		Quick: 400, Thorough: 4000,
+		Quick: 400, Thorough: 2000,
 	})
 }
 
@@ -424,6 +424,6 @@ func TestRtspWebsocket(t *testing.T) {
 func TestWsFrameLength(t *testing.T) {
 	pbt.Run(t, pbt.Spec[WsCase]{
 		ID: "C13", Name: "ws-frame-length", Gen: genWsCase(true), Run: runWs, Classify: classifyWs, Isolate: true,
-		Quick: 150, Thorough: 1500,
+		Quick: 150, Thorough: 800,
 	})
 }
